@@ -35,6 +35,8 @@ def run(ctx):
         c11_forms.run(ctx, crate)
     except ImportError:
         pass
+    from rules import c11_ringhash
+    c11_ringhash.run(ctx, crate)
     ctx.not_decided("ring hash lands in the containing cell; centre round trip; polar-cap index correction at lon = k*pi/2 (float tie-breaks)")
     from rules import controls
     controls.guard_controls(ctx)
